@@ -53,7 +53,7 @@ inductive Ty where
   | ptr (marshaler : Bool) (t : Ty)  -- Go pointer; `marshaler`: the pointee has a value-receiver MarshalTLB
   | struct (fs : Fields)
   | sum (cs : Ctors)
-  | named (id : String)              -- reference into the type environment (Go named struct types; recursion)
+  | named (id : Nat)                 -- reference into the type environment (index; Go named struct types; recursion)
   | magic (t : Option Tag)           -- tlb.Magic field with its (parsed) tag; `none`: ParseTag fails
   | maybe (t : Ty)                   -- tlb.Maybe[T]
   | either (l r : Ty)                -- tlb.Either[L,R]
@@ -61,6 +61,7 @@ inductive Ty where
   | refT (t : Ty)                    -- tlb.Ref[T]
   | prim (p : Prim)
   | vmStack (elem : Ty)              -- tlb.VmStack over its element type (tlb.VmStackValue)
+  | dictE (id : String)              -- tlb.HashmapE[K,V] restricted to the EMPTY dictionary (C05 owns the rest)
   | encErr (id : String)             -- Go MarshalTLB returns "not implemented"; decode side not modelled
   | opaque (id : String)             -- custom codec without a model
 inductive Fields where
@@ -76,7 +77,7 @@ instance : Inhabited Ty := ⟨.bool⟩
 /-- values: typed atoms + lists. Shapes by type:
 uint/int ↦ `int`; bool ↦ `bool`; bytes ↦ `bytes`; cell/any ↦ `cell`; bit strings ↦ `bits`; ptr ↦ `none` | `list [v]`;
 struct ↦ `list [v₁,…]`; sum ↦ `list [sym name, v]`; maybe ↦ `none` | `list [v]`; either ↦ `list [sym L|R, v]`;
-eitherRef ↦ `list [sym L|R, v]`; refT ↦ v; magic ↦ `int`. -/
+eitherRef ↦ `list [sym L|R, v]`; refT ↦ v; magic ↦ `magic`. -/
 inductive Val where
   | int (i : Int)
   | bool (b : Bool)
@@ -85,6 +86,7 @@ inductive Val where
   | cell (c : Cell)
   | sym (s : String)
   | none
+  | magic                 -- a tlb.Magic field: the number it stores is not part of the value
   | nil
   | cons (hd tl : Val)
   deriving Inhabited
@@ -97,7 +99,8 @@ def ctor (name : String) (v : Val) : Val := .cons (.sym name) (.cons v .nil)
 def some (v : Val) : Val := .cons v .nil
 end Val
 
-/-- type environment: Go named types → descriptors -/
-abbrev Env := String → Option Ty
+/-- type environment: Go named types (by index) → descriptors. Indices instead of names keep the regenerated `wf_<T>`
+obligations cheap for the kernel. -/
+abbrev Env := Nat → Option Ty
 
 end Tongo.Tlb
